@@ -249,7 +249,7 @@ fn msys_dispatch(a: &Args, sys: &str, replay: Option<(Vec<String>, String)>) -> 
     use i_tree::map::tree::MapTree;
     use i_tree::set::list::SetList;
     use i_tree::set::tree::SetTree;
-    use msys::{FaultVal, HeapVal, IKey, MFlags, MSys, SVal, TrackVal};
+    use msys::{FaultVal, HeapVal, IKey, MFlags, MSys, SVal, TrackVal, WideVal};
     let f = MFlags {
         wr: a.flag("wr"),
         delh: a.flag("delh"),
@@ -295,6 +295,10 @@ fn msys_dispatch(a: &Args, sys: &str, replay: Option<(Vec<String>, String)>) -> 
         ("settree", "u16") => go!(SetTree<IKey, SVal<u16>>),
         ("settree", "heap") => go!(SetTree<IKey, SVal<HeapVal>>),
         ("settree", "bare") => go!(SetTree<u8, u8>),
+        ("maptree", "wide") => go!(MapTree<IKey, WideVal>),
+        ("settree", "wide") => go!(SetTree<IKey, SVal<WideVal>>),
+        ("maplist", "wide") => go!(MapList<IKey, WideVal>),
+        ("setlist", "wide") => go!(SetList<SVal<WideVal>>),
         ("maptree", "fault") => go!(MapTree<IKey, FaultVal>),
         ("settree", "fault") => go!(SetTree<IKey, SVal<FaultVal>>),
         ("maplist", "fault") => go!(MapList<IKey, FaultVal>),
